@@ -129,6 +129,11 @@ def install():
     alog = logging.getLogger('asyncio')
     alog.addHandler(LOGS)
     alog.propagate = False
+    # everything imported so far is permanent: keep it out of the per-run collections
+    # (a full collection of the interpreter heap costs ~25 ms, more than a run)
+    import aioslsk.client  # noqa: F401  (pulls in every manager)
+    gc.collect()
+    gc.freeze()
 
 
 def begin_run(loop, streams):
